@@ -917,25 +917,24 @@ def _passes(ctx, R: Roles, model, o, o_eq):
                 adj.setdefault(recv.value.id, []).append((recv.attr, c))
     out_attr = [a for a, _ in adj.get(p_start, [])]
     in_attr = [a for a, _ in adj.get(p_end, [])]
+    adj_ok = False
     if len(out_attr) != 1 or len(in_attr) != 1:
         o.refute(con, con.node, con.name, f"a new link is not appended to exactly one list of its start node and one list of its end "
                                           f"node (start: {out_attr}, end: {in_attr})")
-        return
-    OUT, IN = out_attr[0], in_attr[0]
-    if OUT == IN:
-        o.refute(con, con.node, con.name, f"outgoing and incoming links share the list `{OUT}`")
-        return
-    if (OUT, IN) != ('forward_links', 'backward_links'):
-        if (OUT, IN) == ('backward_links', 'forward_links'):
-            o.refute(con, adj[p_start][0][1], adj[p_start][0][1], "the link is appended to start.backward_links / end.forward_links: "
-                                                                  "adjacency lists are swapped against their readers")
-            return
-    rets = [n for n in walk_no_nested(con.node) if isinstance(n, ast.Return) and n.value is not None]
-    if not (rets and all(same(exc.expand(r.value), model['connect_ctor']) or
-                         getattr(getattr(exc.expand(r.value), 'func', None), 'id', None) == R.link_cls for r in rets)):
-        o.undecided(con, con.node, con.name, "connect helper does not return the link it created")
-        return
-    o.site(con, con.node, f"link(start,end,units) appended to start.{OUT} and end.{IN}")
+    elif out_attr[0] == in_attr[0]:
+        o.refute(con, con.node, con.name, f"outgoing and incoming links share the list `{out_attr[0]}`")
+    else:
+        adj_ok = True
+    if adj_ok:
+        OUT, IN = out_attr[0], in_attr[0]
+        rets = [n for n in walk_no_nested(con.node) if isinstance(n, ast.Return) and n.value is not None]
+        if not (rets and all(same(exc.expand(r.value), model['connect_ctor']) or
+                             getattr(getattr(exc.expand(r.value), 'func', None), 'id', None) == R.link_cls for r in rets)):
+            o.undecided(con, con.node, con.name, "connect helper does not return the link it created")
+        else:
+            o.site(con, con.node, f"link(start,end,units) appended to start.{OUT} and end.{IN}")
+    else:
+        OUT, IN = 'forward_links', 'backward_links'     # the readers' convention; the remaining clauses are still checked
 
     # ---- dependency arcs: pred.end -> start, 0 units
     loop = model.get('dep_loop')
@@ -979,10 +978,19 @@ def _passes(ctx, R: Roles, model, o, o_eq):
     for p in R.passes:
         cs = R.calls_to(calc, p)
         pass_calls.append((p, cs))
-    first = sorted(pass_calls, key=lambda pc: min((c.lineno for c in pc[1]), default=0))
+    # which pass is the forward one: by what it computes (max / incoming links / link.start), call order breaks ties
+    def fwd_score(pc):
+        text = src(pc[0].node)
+        return (text.count('max(') - text.count('min(')) + (text.count('.' + IN) - text.count('.' + OUT)) + \
+               (text.count('.start.') - text.count('.end.'))
+    by_line = sorted(pass_calls, key=lambda pc: min((c.lineno for c in pc[1]), default=0))
+    first = sorted(by_line, key=lambda pc: -fwd_score(pc))
     fwd, bwd = first[0][0], first[1][0]
     fn, bn = [ccfg2.node_containing(c) for c in first[0][1]], [ccfg2.node_containing(c) for c in first[1][1]]
-    if not all(_before(ccfg2, a, b) for a in fn for b in bn):
+    if fn and bn and all(_before(ccfg2, b, a) for a in fn for b in bn):
+        o.refute(calc, first[1][1][0], 'pass order', f"the backward pass ({bwd.name}) runs before the forward pass ({fwd.name}): the sink's "
+                                                     f"earliest time (project length) is not known when latest times are derived from it")
+    elif not all(_before(ccfg2, a, b) for a in fn for b in bn):
         o.undecided(calc, calc.node, calc.name, "the two passes are not called in two consecutive loops")
         return
     ES = _pass_field(fwd)
